@@ -86,8 +86,8 @@ PROPS["C08"] = {
 }
 PROPS["C09"] = {
     "parts": [_BATCH, {"family": "batchstress", "admits": "BatchStressCorr.spec_C09_stress", "model_obs": None, "timeout": 600}],
-    "level_text": "Theorems over ALL schedules: C09_stop_skips - once the stop flag is up, an item whose task has not passed its stop-flag check is never executed (its events stay empty for every continuation of every schedule), so only tasks already received by the other workers can still run; C09_stop_flag_permanent; C09_no_fake_success - for every mode and schedule the slot of an item without events is an error slot. Correspondence: first failing item at every position for n<=8 (quick) / 16, c in 0..4, both modes, failing item released first / last / randomly; spec_C09 walks the implementation's trace (after the final failure only calls of items in flight at the last quiescent point may appear). Second part, free-running (ungated) stop-mode batches of 6000 (quick) / 20000 items with 2..8 workers, the first workers-1 items held in flight until shortly after an early item failed: judged by the bound that follows for every schedule from C09_stop_skips, C09_stop_flag_permanent and C07_one_worker_per_item (at most workers-1 executed items have a larger index than a skipped item), plus no fake success, own result per executed item, one post with n results.",
-    "level_note": _TB + " The inversion bound applied to the free-running runs is derived from the three theorems by a counting argument given in DESIGN.md section 14, not itself machine-checked. Which interleavings the free runs reach is up to the Go scheduler.",
+    "level_text": "Theorems over ALL schedules: C09_stop_skips - once the stop flag is up, an item whose task has not passed its stop-flag check is never executed (its events stay empty for every continuation of every schedule), so only tasks already received by the other workers can still run; C09_stop_flag_permanent; C09_no_fake_success - for every mode and schedule the slot of an item without events is an error slot. Correspondence: first failing item at every position for n<=8 (quick) / 16, c in 0..4, both modes, failing item released first / last / randomly; spec_C09 walks the implementation's trace (after the final failure only calls of items in flight at the last quiescent point may appear). Second part, free-running (ungated) stop-mode batches of 200 000 (quick) / 400 000 items with 2..8 workers: the first workers-1 items are held in flight until 20..60 ms after an early item failed while the queue takes several times longer to drain; judged by 'at most workers-1 executed items have a larger index than a skipped item', plus no fake success, own result per executed item, one post with n results.",
+    "level_note": _TB + " The free-running part is sound only under a timing assumption (DESIGN.md 14.5): the worker that ran the failing item is not suspended for more than the release delay between returning from the item's processing and taking the mutex. Under it the bound follows from C09_stop_skips, C09_stop_flag_permanent and C07_one_worker_per_item by an argument on paper. Which interleavings the free runs reach is up to the Go scheduler.",
     "explanation": "unstarted-items invariant for all continuations; stop position sweep",
     "assumptions": [],
 }
